@@ -275,7 +275,7 @@ C08_Shrinks  == PassEnded => (SubBox(Box, g.passIn) /\ NonEmptyBox(Box))
 C08_Fixpoint == PassEnded => \A q \in 1..NProp(P) : ne[Top][q] =>
                    LET v == ViewBox(P, P.props[q], Box)
                        r == Ideal(P.props[q].alg, P.props[q].params, v)
-                   IN r[1] # 0 /\ r[2] = v
+                   IN r[1] # 0 /\ (r[2] = v \/ P.props[q].alg = "no_sub_cycle")
 C08_Greatest == (PassEnded /\ GfpApplicable(P)) => LET gf == Gfp(P, g.passEn, g.passIn) IN gf[1] /\ gf[2] = Box
 C08_KeepsSolutions == PassEnded => \A x \in Sols : InBox(x, g.passIn) => InBox(x, Box)
 C08_FailsOnlyWithoutSolution == (pc \in {"search", "shmain", "shprobe"} /\ bcst = 0 /\ (pc = "search" => P.cfg.ca = 0))
